@@ -114,6 +114,7 @@ type ClientEnd struct {
 	C    *transport.Client
 	Conn *simnet.Conn
 	Addr *net.UDPAddr
+	net  *simnet.Net
 
 	mu      sync.Mutex
 	started bool
@@ -124,7 +125,7 @@ type ClientEnd struct {
 
 func (w *World) NewClient(cfg transport.ClientConfig, addr, server *net.UDPAddr) *ClientEnd {
 	conn := w.Net.Listen(addr, false)
-	ce := &ClientEnd{C: transport.NewClient(conn, server, cfg), Conn: conn, Addr: addr}
+	ce := &ClientEnd{C: transport.NewClient(conn, server, cfg), Conn: conn, Addr: addr, net: w.Net}
 	w.Clients = append(w.Clients, ce)
 	return ce
 }
@@ -151,6 +152,10 @@ func (ce *ClientEnd) Start() {
 		ce.mu.Lock()
 		ce.done, ce.err = true, err
 		ce.mu.Unlock()
+		// On failure nobody reads this conn again; the flag is flipped only after the result is
+		// recorded, so the network is not quiescent before Result() is accurate. On success the
+		// client's own state (read white-box by Completed) is already final when its listen
+		// goroutine parks.
 		ce.Conn.ExpectReader(err == nil)
 	}()
 }
@@ -168,11 +173,10 @@ func (ce *ClientEnd) Panicked() any {
 	return ce.panicv
 }
 
-// Completed: Handshake returned nil.
-func (ce *ClientEnd) Completed() bool {
-	d, e := ce.Result()
-	return d && e == nil
-}
+// Completed: the handshake succeeded. Read from the client's own state, which is final before
+// its receive loop starts (the harness-side record of Handshake's return value may lag behind
+// the moment the network becomes quiescent).
+func (ce *ClientEnd) Completed() bool { return ce.C.VerifOpen() }
 
 // Tamper decides what is delivered in place of datagram d (the ord-th datagram popped in this
 // pump). Returning nil delivers d unchanged; an empty non-nil slice drops it.
